@@ -603,7 +603,7 @@ func TestC01(t *testing.T) {
 
 func TestC02(t *testing.T) {
 	installWedge(t, "C02")
-	p := &profile{prop: "C02", minKeys: 1, maxKeys: 2, methods: []string{"GET", "GET", "HEAD"}, upstreamEnc: true, reloadW: 3, cancelW: 5,
+	p := &profile{prop: "C02", minKeys: 1, maxKeys: 2, methods: []string{"GET", "GET", "HEAD"}, upstreamEnc: true, reloadW: 3, cancelW: 5, twins: true,
 		stores: []string{"", "", "mem"}, cacheSizes: []int{1000, 1000, 100, 1001, 2000}, hfps: []int{0, 1, 2}, proxyTimeouts: []int{0, 1000, 3000, 10000},
 		lifetimes: []int{1, 2, 5}, outcomes: allOutcomes,
 		parkPct: 35, w: [6]int{40, 25, 12, 12, 5, 0}, minOps: 4, maxOps: 40,
@@ -646,7 +646,7 @@ func TestC07(t *testing.T) {
 	installWedge(t, "C07")
 	p := &profile{prop: "C07", minKeys: 1, maxKeys: 2, methods: []string{"GET", "GET", "GET", "HEAD"}, reloadW: 6,
 		stores: []string{"", "", "lazy"}, cacheSizes: []int{1000, 1000, 100, 1001, 2000}, hfps: []int{0, -5, 1, 2, 5, 60, 300}, proxyTimeouts: []int{0},
-		lifetimes: []int{1, 2, 5}, outcomes: []string{"cacheable", "uncacheable", "uncacheable", "transport_error", "status5xx"},
+		lifetimes: []int{1, 2, 5}, outcomes: []string{"cacheable", "uncacheable", "uncacheable", "transport_error", "status5xx", "body_abort"},
 		parkPct: 10, w: [6]int{45, 25, 22, 5, 0, 0}, minOps: 6, maxOps: 45,
 		macros: []string{"hfpBurst"}, macroPct: 15,
 		bodyLens: []int{0, 40}, aes: []string{"", "gzip"}}
@@ -662,7 +662,7 @@ func TestC07Store(t *testing.T) {
 	installWedge(t, "C07")
 	p := &profile{prop: "C07", minKeys: 10, maxKeys: 30, methods: []string{"GET", "GET", "GET", "HEAD"}, shardKeys: true,
 		stores: []string{"mem"}, cacheSizes: []int{8, 8, 16}, hfps: []int{5, 60, 300, 0}, proxyTimeouts: []int{0},
-		lifetimes: []int{2, 5, 60}, outcomes: []string{"cacheable", "uncacheable", "uncacheable", "uncacheable", "status5xx"},
+		lifetimes: []int{2, 5, 60}, outcomes: []string{"cacheable", "uncacheable", "uncacheable", "uncacheable", "status5xx", "body_abort"},
 		parkPct: 5, w: [6]int{50, 32, 12, 3, 3, 0}, minOps: 12, maxOps: 100,
 		macros: []string{"hfpEvictReload", "hfpEvictReload", "hfpBurst"}, macroPct: 12,
 		bodyLens: []int{0, 40}, aes: []string{"", "gzip"}}
@@ -671,9 +671,25 @@ func TestC07Store(t *testing.T) {
 	}, stdClasses))
 }
 
+// TestC04Store: lifetimes and Age across reloads from a store -- an LRU smaller than the
+// working set drops entries that the store gives back: the lifetime and the Age keep
+// counting from the original fetch
+func TestC04Store(t *testing.T) {
+	installWedge(t, "C04")
+	p := &profile{prop: "C04", minKeys: 10, maxKeys: 30, methods: []string{"GET", "GET", "GET", "HEAD"}, shardKeys: true,
+		stores: []string{"mem", "mem", "lazy"}, cacheSizes: []int{8, 8, 16}, hfps: []int{0, 2}, proxyTimeouts: []int{0},
+		lifetimes: []int{2, 3, 5, 8, 60}, outcomes: []string{"cacheable", "cacheable", "cacheable", "cacheable", "uncacheable"},
+		parkPct: 5, w: [6]int{50, 32, 14, 2, 2, 0}, minOps: 12, maxOps: 110,
+		macros: []string{"evictReload", "evictReload", "epochs"}, macroPct: 14,
+		bodyLens: []int{0, 40}, aes: []string{"", "gzip"}}
+	vstat.Run(t, "C04", "sim", genScenario(p), execSim(t, "C04", func(s *modelStats, tr *trace) bool {
+		return s.ReloadHits >= 1
+	}, stdClasses))
+}
+
 func TestC18(t *testing.T) {
 	installWedge(t, "C18")
-	p := &profile{prop: "C18", minKeys: 2, maxKeys: 4, methods: []string{"GET", "GET", "GET", "HEAD"}, reloadW: 4,
+	p := &profile{prop: "C18", minKeys: 2, maxKeys: 3, methods: []string{"GET", "GET", "GET", "HEAD"}, reloadW: 4, twins: true,
 		twoServers: 70, stores: []string{"", "mem", "mem", "lazy"}, cacheSizes: []int{1000, 1000, 100, 1001, 2000}, hfps: []int{0, 2}, proxyTimeouts: []int{0},
 		lifetimes: []int{2, 5, 60}, outcomes: []string{"cacheable", "cacheable", "cacheable", "uncacheable", "transport_error"},
 		parkPct: 20, w: [6]int{40, 25, 8, 10, 17, 0}, minOps: 6, maxOps: 45,
